@@ -10,17 +10,21 @@
 //! (EdDSA, signature under the trusted key, supported version with all its claims well-typed, audience,
 //! not-before, expiry with the library's leeway) computed directly from the parsed token:
 //! accepted ⇒ all hold (`C10:accepted:<conjunct>`), all hold ⇒ accepted (`C10:rejected-valid`),
-//! never panics (`C10:panic`), granted lifetime ≤ exp − now (`C10:lifetime`).
+//! never panics (`C10:panic`).  Granted lifetime: the REAL `register_snaptun_identity_handler` is run on the claims
+//! `verify` returned (hook `snap_control::api::crpc::verif::register_snaptun_identity`), with a recording
+//! `SnapTunIdentityRegistry` (the `lifetime` argument is observed: `C10:lifetime:exceeds-remaining` when call start +
+//! lifetime > exp) and with the real `IdentityRegistry` (stored expiry instant via `verif_snapshot`:
+//! `C10:lifetime:registry-expiry-exceeds-remaining`); both are bracketed by the model's `lifetime` at the clock
+//! values before and after the call.
 use std::{
     str::FromStr,
     sync::Arc,
-    time::{Duration, SystemTime, UNIX_EPOCH},
+    time::{Duration, Instant, SystemTime, UNIX_EPOCH},
 };
 
 use base64::Engine;
 use ed25519_dalek::{Signature, Signer, SigningKey, Verifier, VerifyingKey};
 use jsonwebtoken::{DecodingKey, errors::ErrorKind};
-use scion_sdk_token_validator::validator::Token;
 use serde::{Deserialize, Serialize};
 use serde_json::{Value, json};
 use sha2::{Digest, Sha256};
@@ -648,6 +652,203 @@ fn spec_violations(p: &Option<Parsed>, jwks: bool, now: u64, leeway: u64) -> Vec
     bad
 }
 
+// ------------------------------------------------------------------------------------------------
+// the real registration handler on verified claims
+// ------------------------------------------------------------------------------------------------
+
+/// `SnapTunIdentityRegistry` that only records what the handler passes to `register`
+#[derive(Default)]
+struct RecRegistry {
+    calls: std::sync::Mutex<Vec<(String, [u8; 32], Duration)>>,
+}
+
+impl snap_control::api::crpc::model::SnapTunIdentityRegistry for RecRegistry {
+    fn register(&self, _now: Instant, key: &str, initiator_identity: [u8; 32], _psk_share: Option<[u8; 32]>, lifetime: Duration, _claims: &AnyClaims) -> anyhow::Result<bool> {
+        self.calls.lock().unwrap().push((key.to_string(), initiator_identity, lifetime));
+        Ok(true)
+    }
+    fn remove_expired(&self, _now: Instant) {}
+}
+
+const HANDLER_IDENTITY: [u8; 32] = [7u8; 32];
+
+/// observation of one run of the real handler with a recording registry and one with the real registry
+struct HandlerObs {
+    exp: u64,
+    jti: String,
+    /// system clock (ns since the epoch) sampled immediately before / after the recording-registry call
+    s0: u128,
+    s1: u128,
+    /// Err = the handler panicked
+    rec_result: Result<Result<Vec<u8>, String>, String>,
+    rec_calls: Vec<(String, [u8; 32], Duration)>,
+    /// the same with the real `IdentityRegistry`: clocks before/after, result, snapshot after
+    r_s0: u128,
+    r_s1: u128,
+    r_i0: Instant,
+    r_i1: Instant,
+    reg_result: Result<Result<Vec<u8>, String>, String>,
+    reg_assoc: Vec<(String, [u8; 32])>,
+    reg_sessions: Vec<([u8; 32], Instant)>,
+}
+
+fn sys_ns() -> u128 {
+    SystemTime::now().duration_since(UNIX_EPOCH).unwrap().as_nanos()
+}
+
+fn run_handler(env: &Env, claims: &AnyClaims) -> HandlerObs {
+    use snap_control::{api::crpc::verif::register_snaptun_identity, proto::anapaya::snap::v1::RegisterSnapTunIdentityRequest, server::identity_registry::IdentityRegistry};
+    let exp = match claims {
+        AnyClaims::V0(c) => c.exp,
+        AnyClaims::V1(c) => c.exp,
+    };
+    let remote: std::net::SocketAddr = "127.0.0.1:4711".parse().unwrap();
+    let req = || RegisterSnapTunIdentityRequest { initiator_static_x25519: HANDLER_IDENTITY.to_vec(), psk_share: vec![0u8; 32] };
+    let rec = Arc::new(RecRegistry::default());
+    let s0 = sys_ns();
+    let rec_result = catch(|| env.rt.block_on(register_snaptun_identity(rec.clone(), claims.clone(), remote, req())));
+    let s1 = sys_ns();
+    let rec_calls = rec.calls.lock().unwrap().clone();
+    let reg = Arc::new(IdentityRegistry::new());
+    let (r_i0, r_s0) = (Instant::now(), sys_ns());
+    let reg_result = catch(|| env.rt.block_on(register_snaptun_identity(reg.clone(), claims.clone(), remote, req())));
+    let (r_s1, r_i1) = (sys_ns(), Instant::now());
+    let (reg_assoc, reg_sessions) = reg.verif_snapshot();
+    HandlerObs { exp, jti: claims.jti(), s0, s1, rec_result, rec_calls, r_s0, r_s1, r_i0, r_i1, reg_result, reg_assoc, reg_sessions }
+}
+
+/// model's `lifetime exp nowNs`: Some(Ok(d)) granted, Some(Err(false)) past, Some(Err(true)) panic; None = no driver
+fn model_life(lean: &mut Lean, exp: u64, now_ns: u128) -> Option<Result<u128, bool>> {
+    if !lean.enabled {
+        return None;
+    }
+    let a = lean.ask(&format!("life {exp} {now_ns}"));
+    if a == "none" {
+        Some(Err(false))
+    } else if a == "panic" {
+        Some(Err(true))
+    } else {
+        a.strip_prefix("some ").and_then(|x| x.parse::<u128>().ok()).map(Ok)
+    }
+}
+
+const PAST_MSG: &str = "expiration time is in the past";
+
+/// (model disagreement, spec failures, distribution labels).  The handler reads the system clock at some
+/// instant in [s0, s1]; the model's `lifetime` is evaluated at both ends: the observed lifetime must lie
+/// between the two, "past" is allowed only if the model says past at s1, a registration only if the
+/// model grants at s0.  Spec oracle (no model): s0 + lifetime <= exp, i.e. the lifetime handed to
+/// `register` never exceeds what remained of the token when the call started.
+fn judge_handler(h: &HandlerObs, lean: &mut Lean) -> (Option<String>, Vec<(String, String)>, Vec<String>) {
+    let mut spec = vec![];
+    let mut obs = vec![];
+    let mut dis: Option<String> = None;
+    let exp_ns = h.exp as u128 * 1_000_000_000;
+    let hi = model_life(lean, h.exp, h.s0);
+    let lo = model_life(lean, h.exp, h.s1);
+    let mut differ = |m: String| {
+        if dis.is_none() {
+            dis = Some(m);
+        }
+    };
+    match &h.rec_result {
+        Err(p) => {
+            obs.push("handler: panic (recording registry)".to_string());
+            if h.rec_calls.len() > 0 {
+                differ(format!("the handler called register and then panicked: {p}"));
+            }
+            if let Some(m) = hi {
+                if m != Err(true) {
+                    differ(format!("handler panicked ({p}), model lifetime {m:?}"));
+                }
+            }
+        }
+        Ok(Ok(_)) => {
+            if h.rec_calls.len() != 1 {
+                differ(format!("handler answered ok but called register {} times (model: exactly once)", h.rec_calls.len()));
+            }
+            for (key, id, life) in &h.rec_calls {
+                let l = life.as_nanos();
+                obs.push("handler: registered".to_string());
+                if h.s0 + l > exp_ns {
+                    spec.push((
+                        "C10:lifetime:exceeds-remaining".into(),
+                        format!("register was given lifetime {l} ns at a call that started {} ns after the epoch: ends {} ns after the token's exp = {}", h.s0, h.s0 + l - exp_ns, h.exp),
+                    ));
+                }
+                match (hi, lo) {
+                    (Some(Ok(d0)), Some(lo)) => {
+                        let d1 = lo.unwrap_or(0);
+                        if l > d0 || l < d1 {
+                            differ(format!("lifetime: handler passed {l} ns, model {d1} ..= {d0} ns"));
+                        }
+                    }
+                    (Some(m), _) => differ(format!("lifetime: handler registered {l} ns, model at call start {m:?}")),
+                    _ => {}
+                }
+                if *key != h.jti {
+                    differ(format!("handler registered under key {key:?}, token jti {:?}", h.jti));
+                }
+                if *id != HANDLER_IDENTITY {
+                    differ("handler registered another identity than the request's".to_string());
+                }
+            }
+        }
+        Ok(Err(msg)) => {
+            obs.push(format!("handler: refused ({})", if msg == PAST_MSG { "past" } else { "other" }));
+            if !h.rec_calls.is_empty() {
+                differ(format!("handler refused ({msg}) but called register {} times", h.rec_calls.len()));
+            }
+            if msg != PAST_MSG {
+                differ(format!("handler refused with {msg:?}"));
+            } else if let Some(Ok(d1)) = lo {
+                differ(format!("handler said the expiry is in the past, model still grants {d1} ns at the end of the call"));
+            }
+        }
+    }
+    // the real registry: expiry instant actually stored
+    let r_exp_ns = exp_ns;
+    match &h.reg_result {
+        Ok(Ok(_)) => {
+            let sess = h.reg_sessions.iter().find(|(id, _)| *id == HANDLER_IDENTITY);
+            let assoc_ok = h.reg_assoc.len() == 1 && h.reg_assoc[0] == (h.jti.clone(), HANDLER_IDENTITY);
+            match sess {
+                Some((_, e)) if assoc_ok && h.reg_sessions.len() == 1 => {
+                    obs.push("handler: registered in the real IdentityRegistry".to_string());
+                    // expiry relative to the instant sampled before the call
+                    let rel = e.checked_duration_since(h.r_i0).map(|d| d.as_nanos()).unwrap_or(0);
+                    let call = h.r_i1.duration_since(h.r_i0).as_nanos();
+                    // remaining at call start; the handler samples SystemTime::now() and later Instant::now(), both inside the call
+                    let remaining0 = r_exp_ns.saturating_sub(h.r_s0);
+                    if rel > remaining0 + call {
+                        spec.push((
+                            "C10:lifetime:registry-expiry-exceeds-remaining".into(),
+                            format!("IdentityRegistry holds an expiry {rel} ns after the call started, the token had {remaining0} ns left (call took {call} ns), exp = {}", h.exp),
+                        ));
+                    }
+                    let remaining1 = r_exp_ns.saturating_sub(h.r_s1);
+                    if lean.enabled && rel < remaining1 {
+                        differ(format!("registry expiry {rel} ns after call start, model lifetime at call end {remaining1} ns"));
+                    }
+                }
+                _ => differ(format!("handler ok but the registry holds {} associations / {} sessions", h.reg_assoc.len(), h.reg_sessions.len())),
+            }
+        }
+        Ok(Err(_)) => {
+            if !h.reg_sessions.is_empty() || !h.reg_assoc.is_empty() {
+                differ("handler refused but the real registry holds a registration".to_string());
+            }
+        }
+        Err(p) => {
+            if h.rec_result.is_ok() {
+                obs.push("observation: IdentityRegistry::register panics (Instant + lifetime overflow) on accepted claims".to_string());
+                let _ = p;
+            }
+        }
+    }
+    (dis, spec, obs)
+}
+
 struct Outcome {
     token: String,
     now: u64,
@@ -659,6 +860,8 @@ struct Outcome {
     glue: Option<String>,
     /// `exp_time()` of the accepted claims panicked (UNIX_EPOCH + exp overflows SystemTime)
     exp_time_panic: bool,
+    /// what the real registration handler did with the accepted claims (distribution labels)
+    handler_obs: Vec<String>,
 }
 
 fn run_case(c: &Case, env: &Env, lean: &mut Lean) -> Outcome {
@@ -669,19 +872,12 @@ fn run_case(c: &Case, env: &Env, lean: &mut Lean) -> Outcome {
         let t0 = now_secs();
         let tok = render(c, env, t0);
         let r = catch(|| env.rt.block_on(verifier.verify(&tok)));
-        // `register_snaptun_identity_handler`: lifetime = exp_time().duration_since(SystemTime::now())
+        // the REAL `register_snaptun_identity_handler` (hook `api::crpc::verif::register_snaptun_identity`) on the
+        // claims object `verify` returned: once with a recording registry (the `lifetime` argument of
+        // `SnapTunIdentityRegistry::register` is observed directly), once with the real `IdentityRegistry`
+        // (the stored expiry instant is observed through `verif_snapshot`)
         let grant = match &r {
-            Ok(Ok(claims)) => {
-                let exp = match claims {
-                    AnyClaims::V0(c) => c.exp,
-                    AnyClaims::V1(c) => c.exp,
-                };
-                let now_sys = SystemTime::now();
-                let now_ns = now_sys.duration_since(UNIX_EPOCH).unwrap().as_nanos();
-                // the real `Token::exp_time` (panics when UNIX_EPOCH + exp overflows SystemTime)
-                let life = catch(|| claims.exp_time().duration_since(now_sys).ok().map(|d| d.as_nanos()));
-                Some((exp, now_ns, life))
-            }
+            Ok(Ok(claims)) => Some(run_handler(env, claims)),
             _ => None,
         };
         let t1 = now_secs();
@@ -711,32 +907,23 @@ fn run_case(c: &Case, env: &Env, lean: &mut Lean) -> Outcome {
         let mut disagree = lean.differs(&model, &imp);
         let mut lifetime_note = None;
         let mut exp_time_panic = false;
-        if let Some((exp, now_ns, life)) = grant {
-            let ml = lean.ask(&format!("life {exp} {now_ns}"));
-            let il = match &life {
-                Ok(Some(d)) => format!("some {d}"),
-                Ok(None) => "none".to_string(),
-                Err(_) => "panic".to_string(),
-            };
-            if lean.differs(&ml, &il) {
+        let mut handler_obs: Vec<String> = vec![];
+        if let Some(h) = &grant {
+            let (d, sp, obs) = judge_handler(h, lean);
+            if let Some(n) = d {
                 disagree = true;
-                lifetime_note = Some(format!("lifetime: impl {il}, model {ml}"));
+                lifetime_note = Some(n);
             }
-            if let Ok(Some(d)) = life {
-                if now_ns + d > exp as u128 * 1_000_000_000 || now_ns / 1_000_000_000 < t0 as u128 {
-                    spec.push(("C10:lifetime".to_string(), format!("granted {d} ns at {now_ns} ns exceeds exp {exp}")));
-                }
-            }
-            if life.is_err() {
-                exp_time_panic = true;
-            }
+            spec.extend(sp);
+            handler_obs = obs;
+            exp_time_panic = h.rec_result.is_err();
         }
         // glue: the library's own idea of whether the header decodes
         let lib_hdr = jsonwebtoken::decode_header(&tok).is_ok();
         let mine = parsed.as_ref().map(|p| KNOWN_ALGS.contains(&p.alg.as_str())).unwrap_or(false);
         let glue = if lib_hdr != mine { Some(format!("decode_header ok={lib_hdr}, harness reader ok={mine}")) } else { None };
         let model = match lifetime_note { Some(n) => format!("{model} [{n}]"), None => model };
-        return Outcome { token: tok, now: t0, imp, model, parsed: parsed.is_some(), disagree, spec, glue, exp_time_panic };
+        return Outcome { token: tok, now: t0, imp, model, parsed: parsed.is_some(), disagree, spec, glue, exp_time_panic, handler_obs };
     }
 }
 
@@ -843,7 +1030,7 @@ fn value_pool(rng: &mut Rng, l: i64) -> Vec<V> {
     let simple = u.replace('-', "");
     vec![
         raw("null"), raw("true"), raw("false"), raw("0"), raw("1"), raw("2"), raw("-1"), raw("1.0"), raw("1.5"), raw("1e3"),
-        raw("18446744073709551615"), raw("18446744073709551616"), raw("1e400"), raw("-0"), raw("-0.0"), raw("0.4"),
+        raw("18446744073709551615"), raw("18446744073709551616"), raw("9223372036854775807"), raw("9223372036854775808"), raw("1e400"), raw("-0"), raw("-0.0"), raw("0.4"),
         raw("\"\""), raw("\"snap\""), raw("\"SNAP\""), raw("\"other\""), raw("\"1\""), raw("\"ssr\""),
         raw("[]"), raw("[\"snap\"]"), raw("[\"other\"]"), raw("[\"other\",\"snap\"]"), raw("[\"snap\",1]"), raw("[1]"), raw("[[\"snap\"]]"),
         raw("{}"), raw("{\"a\":1}"),
@@ -873,6 +1060,15 @@ fn systematic(rng: &mut Rng, with_jwks: bool, thorough: bool, l: i64) -> Vec<Cas
     let mut c = b0.case("probe v0 nbf=now+3600");
     c.pay = Pay::Obj(set(&b0.pay, "nbf", V::T(3600)));
     out.push(c);
+    // the registration handler's only panic site (`Token::exp_time`: exp > i64::MAX) and its neighbours; the lifetime
+    // handed to the registry is then ~2^63 s
+    for b in bs.iter().take(2) {
+        for e in ["9223372036854775807", "9223372036854775808", "9223372036854775806", "4102444800"] {
+            let mut c = b.case(&format!("probe exp={e}"));
+            c.pay = Pay::Obj(set(&b.pay, "exp", raw(e)));
+            out.push(c);
+        }
+    }
     for b in &bs {
         out.push(b.case("valid"));
         // ---- header: alg --------------------------------------------------------------------
@@ -1506,7 +1702,10 @@ fn main() {
         rep.hit(&format!("base {stream}"));
         rep.hit(&format!("impl {}", if o.imp.starts_with("ok") { o.imp.split(' ').take(2).collect::<Vec<_>>().join(" v") } else { o.imp.clone() }));
         if o.exp_time_panic {
-            rep.hit("observation: Token::exp_time() panics on the accepted claims (exp beyond SystemTime range)");
+            rep.hit("observation: the registration handler panics on the accepted claims (Token::exp_time(): exp beyond SystemTime range)");
+        }
+        for h in &o.handler_obs {
+            rep.hit(h);
         }
         if !o.parsed {
             rep.hit("harness reader: not a JWT");
